@@ -17,6 +17,9 @@ const (
 	VerifDefaultReadBufferSize = defaultReadBufferSize
 )
 
+// VerifErrInvalidBaseType exposes the unexported sentinel for errors.Is classification.
+const VerifErrInvalidBaseType = errInvalidBaseType
+
 // VerifReadBuffer wraps the unexported readBuffer.
 type VerifReadBuffer struct{ b readBuffer }
 
